@@ -114,10 +114,15 @@ def run_case(case):
         if case["index"] % 2 == 0:
             # the same arrays are used again afterwards: by a second simulate call and by the caller
             try:
-                df1b = unscale(simcheck.simulate_once(fsim, params, init, list(sol_jax), seed=seed))
+                vf_list = list(sol_jax)  # ONE list object, passed to two calls and inspected afterwards
+                ids_before = [id(a) for a in vf_list]
+                df1b = unscale(simcheck.simulate_once(fsim, params, init, None, seed=seed, vf_obj=vf_list))
+                df1c = unscale(simcheck.simulate_once(fsim, params, init, None, seed=seed, vf_obj=vf_list))
                 again = [np.asarray(a) for a in sol_jax]
                 cnt["c06_value_arrays_reused"] = 1
-                if simcheck.frames_equal(df1, df1b, tol=1e-12) or any(not np.array_equal(a, b, equal_nan=True) for a, b in zip(again, sol_raw)):
+                if len(vf_list) != len(ids_before) or [id(a) for a in vf_list] != ids_before:
+                    res["violations"].append({"key": "value_array_list_changed_by_simulate", "what": f"the list passed as vf_arr_list was changed by the call: {len(ids_before)} arrays before, now {len(vf_list)} entries ({sum(a is None for a in vf_list)} None)"})
+                elif simcheck.frames_equal(df1, df1b, tol=1e-12) or simcheck.frames_equal(df1b, df1c, tol=1e-12) or any(not np.array_equal(a, b, equal_nan=True) for a, b in zip(again, sol_raw)):
                     res["violations"].append({"key": "value_arrays_changed_by_simulate", "what": "simulating twice with the same value arrays gives different frames, or the arrays passed in were changed by the call"})
             except Exception as e:  # noqa: BLE001
                 res["violations"].append({"key": f"value_arrays_unusable_after_simulate|{type(e).__name__}", "what": f"the value arrays handed to simulate cannot be used again afterwards: {pipeline.exc_text(e)}"})
